@@ -1083,8 +1083,107 @@ def _is_length_mismatch(lit: ast.AST, pol: bool, gparam: str) -> bool:
     return gparam in (len_of(sides[0]), len_of(sides[1])) and None not in (len_of(sides[0]), len_of(sides[1]))
 
 
+# ---------------------------------------------------------------------------
+# Kahn's loop
+
+
+def kahn_loop(prog: Program) -> RuleResult:
+    res = RuleResult(
+        "KAHN-LOOP",
+        "the single-ordering routine is Kahn's algorithm: each vertex taken from the ready queue is emitted exactly "
+        "once, in the same iteration; the in-degree of each of ITS successors is decreased by one, unconditionally; "
+        "a successor is queued exactly when its in-degree reaches zero; nothing else queues or emits a vertex. "
+        "Then every emitted prefix is a valid partial ordering and a vertex is emitted only after all its "
+        "predecessors (INDEG-INIT decides the initial counts and the final length test)",
+    )
+    from ..flow import consistent, paths
+
+    mod = prog.module(TOPO)
+    fn = prog.func(TOPO, "toposort")
+    gparam = func_params(fn)[0]
+    whiles = [w for w in fn.body if isinstance(w, ast.While)]
+    if len(whiles) != 1:
+        raise AnalysisError("toposort: main loop not recognised")
+    loop = whiles[0]
+    queue = dotted(loop.test)
+    construct = f"{TOPO}:toposort/main-loop"
+    if queue is None:
+        raise AnalysisError("toposort: the loop does not run on the truth of the ready queue")
+    pops = [
+        st for st in loop.body
+        if isinstance(st, ast.Assign) and isinstance(st.value, ast.Call) and isinstance(st.value.func, ast.Attribute)
+        and st.value.func.attr in ("popleft", "pop") and dotted(st.value.func.value) == queue
+    ]
+    problems = []
+    if len(pops) != 1 or loop.body.index(pops[0]) != 0:
+        problems.append("a vertex is not taken from the ready queue at the top of each iteration")
+        cur = None
+    else:
+        cur = dotted(pops[0].targets[0])
+    rets = [r for r in walk_no_nested(fn) if isinstance(r, ast.Return) and isinstance(r.value, ast.Name)]
+    out = rets[0].value.id if rets else None
+    if out is None:
+        raise AnalysisError("toposort: returned ordering not found")
+    if cur:
+        emits = [
+            st for st in loop.body
+            if isinstance(st, ast.Expr) and isinstance(st.value, ast.Call) and isinstance(st.value.func, ast.Attribute)
+            and st.value.func.attr == "append" and dotted(st.value.func.value) == out
+        ]
+        if len(emits) != 1 or not (emits[0].value.args and dotted(emits[0].value.args[0]) == cur):
+            problems.append(f"the vertex taken from the queue is not appended to `{out}` exactly once, unconditionally")
+        other_emits = [
+            c for c in calls_in(fn, nested=False)
+            if isinstance(c.func, ast.Attribute) and c.func.attr in ("append", "extend", "insert") and dotted(c.func.value) == out
+            and not any(c is e.value for e in emits)
+        ]
+        if other_emits:
+            problems.append(f"`{short(other_emits[0])}` emits a vertex outside the queue discipline")
+        succ_loops = [
+            st for st in loop.body
+            if isinstance(st, ast.For) and isinstance(st.iter, ast.Subscript) and dotted(st.iter.value) == gparam and dotted(st.iter.slice) == cur
+        ]
+        if len(succ_loops) != 1:
+            problems.append(f"the successors `{gparam}[{cur}]` of the emitted vertex are not scanned exactly once")
+        else:
+            sl = succ_loops[0]
+            v = dotted(sl.target)
+            step = _indeg_step(sl)
+            if step is None or step[1] != "-" or step[2] != 1:
+                problems.append("the in-degree of each successor is not decreased by exactly one, unconditionally")
+            else:
+                table = step[0]
+                pushes = [
+                    c for c in calls_in(sl)
+                    if isinstance(c.func, ast.Attribute) and c.func.attr in ("append", "appendleft", "add") and dotted(c.func.value) == queue
+                ]
+                if len(pushes) != 1 or not (pushes[0].args and dotted(pushes[0].args[0]) == v):
+                    problems.append("a successor is not queued exactly once")
+                else:
+                    gs = guards(fn, pushes[0])
+                    zero = any(
+                        pol and isinstance(t, ast.Compare) and len(t.ops) == 1 and isinstance(t.ops[0], ast.Eq)
+                        and sorted([ast.unparse(t.left), ast.unparse(t.comparators[0])]) == sorted([f"{table}[{v}]", "0"])
+                        for t, pol in gs
+                    )
+                    if not zero:
+                        problems.append(f"a successor is queued under a condition other than `{table}[{v}] == 0`")
+                    dec_pos = next((i for i, st in enumerate(sl.body) if isinstance(st, ast.AugAssign)), None)
+                    push_stmt = next((i for i, st in enumerate(sl.body) if any(c is pushes[0] for c in ast.walk(st))), None)
+                    if dec_pos is None or push_stmt is None or push_stmt < dec_pos:
+                        problems.append("the zero test is made before the in-degree is decreased")
+        if any(isinstance(x, (ast.Break, ast.Continue)) for x in walk_no_nested(loop)):
+            problems.append("an iteration can be cut short (break / continue)")
+    if problems:
+        res.fail(construct, "; ".join(problems), mod, loop)
+    else:
+        res.ok(construct, f"pop -> emit once -> decrement each successor -> queue at zero ({queue}, {out})")
+    return res
+
+
 
 RULES = {
+    "KAHN-LOOP": kahn_loop,
     "EMPTY-RESULT-GUARD": empty_result_guard,
     "GROUPS-PAIRING": groups_pairing,
     "LEAVES-SOURCE": leaves_source,
